@@ -97,3 +97,221 @@ class FmtResult:
 
     def pyvc_isinstance(self, t):
         return t in (str, object)
+
+
+# ---------------------------------------------------------------- piecewise texts
+# A Text is a string known as a SEQUENCE OF PIECES: concrete str pieces and
+# symbolic number pieces (IntStr: the decimal spelling of an Int term; DecStr:
+# digits, a decimal mark, digits).  String operations the library performs on
+# such texts (concatenation, startswith/endswith, slicing off concrete ends,
+# replace of a non-digit character, regex search - see textlex) are decided on
+# the piece structure; no word equations are generated.
+def _digits_only(s):
+    return all(c in "0123456789-" for c in s)
+
+
+class DecStr:
+    """The text  <digits><mark><digits>  whose float() is the real `value`
+    (>= 0; floats as reals); mark is ',' or '.'."""
+
+    def __init__(self, value, mark):
+        self.value, self.mark = value, mark
+
+    def pyvc_isinstance(self, t):
+        return t in (str, object)
+
+    def pyvc_float(self, E, st, node):
+        if self.mark != ".":
+            E.raise_exc(st, "ValueError", node)
+            return []
+        return self.value
+
+    def pyvc_int(self, E, st, node):
+        E.raise_exc(st, "ValueError", node)
+        return []
+
+    def pyvc_truth(self, E, st):
+        return [(st, True)]
+
+    def pyvc_contains(self, E, item, st):
+        if isinstance(item, str) and len(item) == 1 and not item.isdigit():
+            return [(st, item == self.mark)]
+        raise OutOfReach("membership test on a decimal text")
+
+    def pyvc_attr(self, E, name, st):
+        if name == "replace":
+            return [(st, _Method(self._replace))]
+        raise OutOfReach("attribute %s of a decimal text" % name)
+
+    def _replace(self, E, args, kws, st, node):
+        a, b = args[:2]
+        if a in (",", ".") and b in (",", "."):
+            return [(st, DecStr(self.value, b if a == self.mark else self.mark))]
+        raise OutOfReach("replace on a decimal text")
+
+
+class _Method:
+    def __init__(self, fn):
+        self.fn = fn
+
+    def pyvc_call(self, E, args, kws, st, node):
+        return self.fn(E, args, kws, st, node)
+
+
+def is_piece(v):
+    from .values import IntStr
+    return isinstance(v, (str, IntStr, DecStr))
+
+
+class Text:
+    def __init__(self, pieces):
+        out = []
+        for p in pieces:
+            if isinstance(p, Text):
+                ps = p.pieces
+            else:
+                ps = [p]
+            for q in ps:
+                if isinstance(q, str):
+                    if not q:
+                        continue
+                    if out and isinstance(out[-1], str):
+                        out[-1] += q
+                        continue
+                out.append(q)
+        self.pieces = out
+
+    def __repr__(self):
+        from .values import IntStr
+        return "Text(%s)" % " ".join(
+            repr(p) if isinstance(p, str) else "<%s>" % (
+                p.term if isinstance(p, IntStr) else p.value) for p in self.pieces)
+
+    @staticmethod
+    def of(v):
+        if isinstance(v, Text):
+            return v
+        if is_piece(v):
+            return Text([v])
+        return None
+
+    def simplest(self):
+        if not self.pieces:
+            return ""
+        if len(self.pieces) == 1:
+            return self.pieces[0]
+        return self
+
+    def pyvc_isinstance(self, t):
+        return t in (str, object)
+
+    def pyvc_truth(self, E, st):
+        return [(st, bool(self.pieces))]
+
+    def pyvc_binop(self, E, op, other, st, swapped):
+        o = Text.of(other)
+        if isinstance(op, ast.Add) and o is not None:
+            r = Text(o.pieces + self.pieces) if swapped else Text(self.pieces + o.pieces)
+            return [(st, r.simplest())]
+        raise OutOfReach("string operation on a piecewise text")
+
+    def pyvc_compare(self, E, op, other, st, swapped):
+        o = Text.of(other)
+        if o is None or not isinstance(op, (ast.Eq, ast.NotEq)):
+            if isinstance(op, (ast.Eq, ast.NotEq)):
+                return [(st, isinstance(op, ast.NotEq))]
+            raise OutOfReach("ordering of piecewise texts")
+        eq = text_equal(E, self, o, st)
+        return [(st, eq if isinstance(op, ast.Eq) else z_not(eq))]
+
+    def pyvc_attr(self, E, name, st):
+        m = {"startswith": self._startswith, "endswith": self._endswith,
+             "replace": self._replace}.get(name)
+        if m is None:
+            raise OutOfReach("attribute %s of a piecewise text" % name)
+        return [(st, _Method(m))]
+
+    def _startswith(self, E, args, kws, st, node):
+        pre = args[0]
+        first = self.pieces[0] if self.pieces else ""
+        if isinstance(pre, str):
+            if isinstance(first, str) and len(pre) <= len(first):
+                return [(st, first.startswith(pre))]
+            if not isinstance(first, str) and pre and not _digits_only(pre[0]):
+                return [(st, False)]          # a number piece starts with a digit or '-'
+            if not isinstance(first, str) and pre == "-":
+                from .values import IntStr
+                if isinstance(first, IntStr):
+                    return [(st, first.term < 0)]
+                return [(st, False)]
+        raise OutOfReach("startswith(%r) on %r" % (pre, self))
+
+    def _endswith(self, E, args, kws, st, node):
+        suf = args[0]
+        last = self.pieces[-1] if self.pieces else ""
+        if isinstance(suf, str):
+            if isinstance(last, str) and len(suf) <= len(last):
+                return [(st, last.endswith(suf))]
+            if not isinstance(last, str) and suf and not suf[-1].isdigit():
+                return [(st, False)]          # a number piece ends with a digit
+        raise OutOfReach("endswith(%r) on %r" % (suf, self))
+
+    def _replace(self, E, args, kws, st, node):
+        a, b = args[:2]
+        if not (isinstance(a, str) and isinstance(b, str) and len(a) == 1 and not _digits_only(a)):
+            raise OutOfReach("replace(%r, ...) on a piecewise text" % (a,))
+        out = []
+        for p in self.pieces:
+            if isinstance(p, str):
+                out.append(p.replace(a, b))
+            elif isinstance(p, DecStr):
+                if a == p.mark:
+                    if b not in (",", "."):
+                        raise OutOfReach("replace of a decimal mark by %r" % b)
+                    out.append(DecStr(p.value, b))
+                else:
+                    out.append(p)
+            else:
+                out.append(p)
+        return [(st, Text(out).simplest())]
+
+    def pyvc_slice(self, E, lo, hi, step, st):
+        if step not in (None, 1) or any(not (x is None or isinstance(x, int)) for x in (lo, hi)):
+            raise OutOfReach("symbolic slice of a piecewise text")
+        ps = list(self.pieces)
+        if lo not in (None, 0):
+            if lo < 0 or not ps or not isinstance(ps[0], str) or len(ps[0]) < lo:
+                raise OutOfReach("slice start inside a symbolic piece")
+            ps[0] = ps[0][lo:]
+        if hi is not None:
+            if hi >= 0 or not ps or not isinstance(ps[-1], str) or len(ps[-1]) < -hi:
+                raise OutOfReach("slice end inside a symbolic piece")
+            ps[-1] = ps[-1][:hi]
+        return [(st, Text(ps).simplest())]
+
+
+def text_equal(E, a, b, st):
+    """Equality of two piecewise texts with the same piece structure (numbers are
+    compared by value: the decimal spelling of an integer is injective)."""
+    from .values import IntStr, z_and
+    if len(a.pieces) != len(b.pieces):
+        if all(isinstance(p, str) for p in a.pieces + b.pieces):
+            return "".join(a.pieces) == "".join(b.pieces)
+        raise OutOfReach("equality of piecewise texts of different structure: %r / %r" % (a, b))
+    cs = []
+    for p, q in zip(a.pieces, b.pieces):
+        if isinstance(p, str) and isinstance(q, str):
+            if p != q:
+                return False
+        elif isinstance(p, IntStr) and isinstance(q, IntStr):
+            cs.append(E.num_cmp(ast.Eq(), p.term, q.term))
+        elif isinstance(p, DecStr) and isinstance(q, DecStr):
+            if p.mark != q.mark:
+                return False
+            cs.append(E.num_cmp(ast.Eq(), p.value, q.value))
+        else:
+            raise OutOfReach("equality of piecewise texts of different structure: %r / %r" % (a, b))
+    out = True
+    for c in cs:
+        out = z_and(out, c)
+    return out
